@@ -10,10 +10,11 @@ Theorem C07_init : Inv init.
 Proof. exact init_inv. Qed.
 Print Assumptions C07_init.
 
-(* ---- every modelled editor (25 constructors of [op]) preserves it, under the guard [accepted] = the exact
-        extra hypotheses the proofs force (Spec.why_not): locator rank <= current count and uid of an existing
-        column for the role setters; icols = (0,1,..) for setLocatorsByColIdx; new name not already present for
-        setNameByColIdx.  Every other editor is unguarded. *)
+(* ---- every modelled editor (30 constructors of [op]) preserves it, under the guard [accepted] = the exact extra
+        hypothesis the proofs force (Spec.why_not). One guard is left: for the role setters (and the locatorIndex
+        argument of addColumnsByConstant / addColumns) the rank must not exceed the current number of roles of that
+        type, counted after the role of the uid itself has been cancelled (see C07_step_refuted_index_beyond_count).
+        Deleted uids, arbitrary icols and already-present names are handled by the (repaired) code itself. *)
 Theorem C07_step : forall s o, Inv s -> accepted s o -> Inv (step s o).
 Proof. exact step_inv. Qed.
 Print Assumptions C07_step.
@@ -28,8 +29,8 @@ Theorem C07_reachable_unguarded : forall ops, forallb unguarded ops = true -> In
 Proof. exact reachable_unguarded. Qed.
 Print Assumptions C07_reachable_unguarded.
 
-(* ---- designators: column index, uid, (role, rank) and name lead to the same column and the same data.
-        The name part needs the name, used as a pattern, to match no other stored name (see C07_designators_refuted). *)
+(* ---- designators: column index, uid, (role, rank) and name lead to the same column and the same data; no
+        hypothesis on the names: a stored name designates its own column even when, read as a pattern, it matches others *)
 Theorem C07_designators : forall s, Inv s -> forall c, c < ncol s ->
   exists u,
     uid_of_col s c = Some u /\ col_of_uid s u = Some c /\
@@ -38,7 +39,7 @@ Theorem C07_designators : forall s, Inv s -> forall c, c < ncol s ->
     (forall t k, t < NLOC -> nth_error (loc s t) k = Some u ->
        col_of_loc s t k = Some c /\ loc_of_col s c = Some (t, k) /\ column_of_loc s t k = column s c) /\
     (forall t k, loc_of_col s c = Some (t, k) -> nth_error (loc s t) k = Some u) /\
-    (forall n, nth_error (names s) c = Some n -> unamb s n ->
+    (forall n, nth_error (names s) c = Some n ->
        colidx_of_name s n = Some c /\ uid_of_name s n = Some u /\ column_of_name s n = column s c).
 Proof. exact designators. Qed.
 Print Assumptions C07_designators.
@@ -51,8 +52,7 @@ Theorem C07_counts : forall s, Inv s ->
   nech s = length (map (is_active s) (seq 0 (nech s))).
 Proof. exact counts. Qed.
 Print Assumptions C07_counts.
-Theorem C07_counts_active : forall s,
-  sel_defined s -> active_number s = length (filter (is_active s) (seq 0 (nech s))).
+Theorem C07_counts_active : forall s, active_number s = length (filter (is_active s) (seq 0 (nech s))).
 Proof. exact active_count. Qed.
 Print Assumptions C07_counts_active.
 
@@ -65,14 +65,20 @@ Theorem C07_frame : forall s o u e, Inv s -> accepted s o ->
 Proof. exact frame. Qed.
 Print Assumptions C07_frame.
 
-(* ---- role setters (setLocatorsByUID and everything funnelled through it): every in-range uid designated by
+(* ---- role setters (setLocatorsByUID and everything funnelled through it): every uid of an existing column designated by
         the call holds the requested role type afterwards — whatever the state *)
 Theorem C07_setlocs_post : forall s us t' k cl u,
-  In (Z.of_nat u) us -> u < uidmax s -> In u (loc (set_locs us (Some t') k cl s) t').
+  In (Z.of_nat u) us -> is_live s u -> In u (loc (set_locs us (Some t') k cl s) t').
 Proof. exact set_locs_post. Qed.
 Print Assumptions C07_setlocs_post.
+(* ---- setLocatorsByColIdx(icols, ..): every existing column listed in icols holds the requested role type afterwards *)
+Theorem C07_setlocs_col_post : forall s cs t' k cl c c',
+  Inv s -> In c cs -> zidx c (ncol s) = Some c' ->
+  exists u, uid_of_col s c' = Some u /\ In u (loc (step s (SetLocsCol cs (Some t') k cl)) t').
+Proof. exact set_locs_col_post. Qed.
+Print Assumptions C07_setlocs_col_post.
 
-(* ================= findings: the faithful model falsifies the unguarded statements ================= *)
+(* ================= finding still present in the code ================= *)
 
 (* setLocatorByUID(uid, type, rank) with rank beyond the current count pads the role list with uid 0:
    after addColumnsByConstant(3) and setLocatorByUID(2, Z, 3) the Z roles are held by uids 0,0,0,2 *)
@@ -81,66 +87,33 @@ Theorem C07_step_refuted_index_beyond_count :
 Proof. exists cex_index_state, cex_index_op. exact cex_index. Qed.
 Print Assumptions C07_step_refuted_index_beyond_count.
 
-(* setLocatorByUID accepts the uid of a deleted column: the role exists but designates no column *)
-Theorem C07_step_refuted_deleted_uid :
-  exists s o, Inv s /\ why_not s o = 2%Z /\ ~ Inv (step s o) /\
-              loc (step s o) 1 = [0] /\ col_of_loc (step s o) 1 0 = None.
-Proof. exists cex_dead_state, cex_dead_op. exact cex_dead. Qed.
-Print Assumptions C07_step_refuted_deleted_uid.
-
-(* setNameByColIdx does not repair duplicates *)
-Theorem C07_step_refuted_duplicate_name :
-  exists s o, Inv s /\ why_not s o = 4%Z /\ ~ Inv (step s o).
-Proof. exists cex_name_state, cex_name_op. exact cex_name. Qed.
-Print Assumptions C07_step_refuted_duplicate_name.
-
-(* setLocatorsByColIdx uses the loop counter instead of icols[i]: the designated column gets no role *)
-Theorem C07_setlocs_post_refuted_loop_counter :
-  exists s, Inv s /\ ncol s = 3 /\
-    loc_of_col (step s (SetLocsCol [2%Z] (Some 1) 0 false)) 2 = None /\
-    loc_of_col (step s (SetLocsCol [2%Z] (Some 1) 0 false)) 0 = Some (1, 0).
-Proof. exists cex_index_state. exact cex_loop_counter. Qed.
-Print Assumptions C07_setlocs_post_refuted_loop_counter.
-
-(* designation by name: names generated by the library itself ("a", "a.1", "a-1", "a-2") are ambiguous as
-   patterns; the column named "a.1" cannot be fetched through its name *)
-Theorem C07_designators_refuted_regex :
-  exists s, Inv s /\ nth_error (names s) 1 = Some [97; 46; 49]%Z /\
-            column s 1 = [Some 2; Some 2]%Z /\ column_of_name s [97; 46; 49]%Z = [] /\
-            uid_of_name s [97; 46; 49]%Z = None.
-Proof. exists cex_regex_state. exact cex_regex. Qed.
-Print Assumptions C07_designators_refuted_regex.
-
-(* getSampleNumber(useSel = true) counts undefined selection values as active, isActive does not *)
-Theorem C07_counts_active_refuted :
-  exists s, Inv s /\ active_number s = 4 /\ length (filter (is_active s) (seq 0 (nech s))) = 2.
-Proof. exists cex_active_state. exact cex_active. Qed.
-Print Assumptions C07_counts_active_refuted.
-
 (* ================= non-vacuity ================= *)
 (* nv_state (Proofs_desig.v): a Db with a deleted middle column, roles on two types, a repaired duplicate name.
-   Every guard-carrying editor has accepted and rejected instances on it, the invariant check on its observations
-   is clean, steps change the state, frame and designator hypotheses are satisfiable. *)
+   The remaining guard has accepted and rejected instances on it, the invariant check on its observations is
+   clean, steps change the state, the former defect witnesses now keep the invariant. *)
 Example C07_nonvacuous_inv : Inv nv_state /\ Inv nv_sel_state.
 Proof. exact nv_inv. Qed.
-Example C07_nonvacuous_designators :
-  nth_error (names nv_state) 4 = Some [97; 46; 49]%Z /\ unamb nv_state [97; 46; 49]%Z.
-Proof. exact nv_unamb. Qed.
-Example C07_nonvacuous_active :
-  loc nv_sel_state SEL = [6] /\ sel_defined nv_sel_state /\ active_number nv_sel_state = 2.
-Proof. exact nv_sel_defined. Qed.
 Example C07_nonvacuous :
   all_acceptedb init nv_ops = true /\
   ncol nv_state = 5 /\ uidcol nv_state = [Some 0; None; Some 1; Some 2; Some 3; Some 4] /\
+  names nv_state = [[112; 45; 49]; [112; 45; 51]; [112; 45; 52]; [97]; [97; 46; 49]]%Z /\
   check_obs (observe nv_state) = 0%Z /\
   why_not nv_state (SetLocUID 5 (Some 1) 3 false) = 0%Z /\
   loc (step nv_state (SetLocUID 5 (Some 1) 3 false)) 1 = [0; 2; 3; 5] /\
   why_not nv_state (SetLocUID 5 (Some 1) 4 false) = 1%Z /\
-  why_not nv_state (SetLocsCol [0; 1]%Z (Some 3) (-1) true) = 0%Z /\
-  why_not nv_state (SetLocsCol [1; 0]%Z (Some 3) (-1) true) = 3%Z /\
-  why_not nv_state (SetNameCol 0 [122%Z]) = 0%Z /\
-  why_not nv_state (SetNameCol 0 [97%Z]) = 4%Z /\
-  why_not nv_state (SetLocUID 1 (Some 1) 0 false) = 2%Z /\
+  (* deleted uid: no-op *)
+  why_not nv_state (SetLocUID 1 (Some 1) 0 false) = 0%Z /\ loc (step nv_state (SetLocUID 1 (Some 1) 0 true)) 1 = [0; 2; 3] /\
+  (* arbitrary icols *)
+  why_not nv_state (SetLocsCol [4; 0]%Z (Some 3) (-1) true) = 0%Z /\
+  loc (step nv_state (SetLocsCol [4; 0]%Z (Some 3) (-1) true)) 3 = [5; 0] /\
+  (* name already present: repaired *)
+  names (step nv_state (SetNameCol 0 [97%Z])) = [[97; 46; 49; 46; 49]; [112; 45; 51]; [112; 45; 52]; [97]; [97; 46; 49]]%Z /\
+  (* "a.1" designates its own column although, as a pattern, it also matches "a-1" *)
+  names (step nv_state (SetNameCol 0 [97; 45; 49]%Z)) = [[97; 45; 49]; [112; 45; 51]; [112; 45; 52]; [97]; [97; 46; 49]]%Z /\
+  colidx_of_name (step nv_state (SetNameCol 0 [97; 45; 49]%Z)) [97; 46; 49]%Z = Some 4 /\
+  column_of_name (step nv_state (SetNameCol 0 [97; 45; 49]%Z)) [97; 46; 49]%Z = [Some 2; Some 2; Some 2]%Z /\
+  (* an undefined selection value masks the sample, in the count too *)
+  active_number (step nv_sel_state (AddSamples 2 None)) = 2 /\ nech (step nv_sel_state (AddSamples 2 None)) = 5 /\
   forallb unguarded [DelCols [1; 3]%Z; SetNameList [[97%Z]; [112; 45; 49]%Z] [97%Z]; AddSamples 2 None; DelSample 0] = true /\
   names (fold_left step [DelCols [1; 3]%Z; SetNameList [[97%Z]; [112; 45; 49]%Z] [97%Z]] nv_state)
     = [[97; 46; 50]; [112; 45; 52]; [97; 46; 49]]%Z /\
